@@ -355,6 +355,35 @@ ChildUnsuspend(c) ==
     /\ tasks' = IF HasSus(c) THEN tasks \cup {SR(parent[c])} ELSE tasks
     /\ UNCHANGED <<pubknown, pst, rst, kst, exists, gone, parent, hasp, ent, rc, rcv, req, routes, pub>>
 
+\* Task::SuspendChildrenIfNeeded for every CA (the hourly check, or "bulk
+\* suspend", with the suspension of inactive children configured;
+\* manager.rs ca_suspend_inactive_children, api/ca.rs
+\* is_suspension_candidate): every active child whose last exchange with its
+\* parent is longer ago than the threshold is suspended like by the API --
+\* if the parent has a record of an exchange at all and the user agent of
+\* that exchange says the child is a Krill CA (a hosted child's does; the
+\* child that is not hosted here, played by the harness, never does).  Time
+\* is not modelled: the action stands for a check at a moment when the
+\* threshold has passed for every child.  A child without certificates is
+\* not suspended (as in ChildSuspend).
+Inactive(c) ==
+    /\ c # Top /\ c \notin Foreign /\ cstate[c] = "active"
+    /\ parent[c] \in AllCA /\ exists[parent[c]]
+    /\ kst[c] # "none" /\ HasCerts(c)
+\* (M: the children the check passes over because the parent's record of
+\* them still carries the mark of an earlier such suspension -- the mark is
+\* set by the check, api/ca.rs ChildStatus, and cleared only by the child's
+\* next exchange, not when the operator unsuspends the child.  Not a
+\* variable of this model: the trace specification takes it from the
+\* observed record.)
+AutoSuspend(M) ==
+    LET S == {c \in AllCA : Inactive(c) /\ c \notin M} IN
+    /\ cstate' = [c \in AllCA |-> IF c \in S THEN "suspended" ELSE cstate[c]]
+    /\ sus' = [c \in AllCA |-> IF c \in S THEN iss[c] ELSE sus[c]]
+    /\ iss' = [c \in AllCA |-> IF c \in S THEN NoCerts ELSE iss[c]]
+    /\ tasks' = tasks \cup {SR(parent[c]) : c \in S}
+    /\ UNCHANGED <<pubknown, pst, rst, kst, exists, gone, parent, hasp, ent, rc, rcv, req, routes, pub>>
+
 \* ca_child_update(resource class name mapping): the child will know the
 \* parent's resource class under another name.  Class names are not part of
 \* this model (one class per CA): nothing changes -- and nothing may change
@@ -986,6 +1015,7 @@ ApiNext ==
             \/ \E R \in SUBSET Res : AddParent(s, ParentOf[s], R)
     \/ "res" \in Ops /\ \E c \in Sub, R \in SUBSET Res : ChildRes(c, R)
     \/ "suspend" \in Ops /\ \E c \in Sub : ChildSuspend(c) \/ ChildUnsuspend(c)
+    \/ "autosuspend" \in Ops /\ \E M \in SUBSET Sub : AutoSuspend(M)
     \/ "map" \in Ops /\ \E c \in Sub : ChildMap(c)
     \/ "remove" \in Ops /\ \E c \in Sub : ChildRemove(c)
     \/ "roa" \in Ops /\ \E c \in AllCA, r \in Roa \ AspaDefs : RoaAdd(c, r) \/ RoaDel(c, r)
